@@ -19,17 +19,23 @@ package modm
 //@ spec canon(x) = x[0] < 1<<56 && x[1] < 1<<56 && x[2] < 1<<56 && x[3] < 1<<56 && x[4] < 1<<32
 //@ spec reduced(x) = canon(x) && sval(x) < L
 
+//@ func ltModM(a, b)
+//@   ct-only
+//@   ct
 //@ func reduce(r)
+//@   ct
 //@   requires limbs56(*r)
 //@   modifies *r
 //@   ensures limbs56(*r)
 //@   ensures sval(*r) == ite(sval(old(*r)) >= L, sval(old(*r)) - L, sval(old(*r)))
 
 //@ func (*Bignum256).Reset(r)
+//@   ct
 //@   modifies *r
 //@   ensures forall(i, 0, 5, r[i] == 0)
 
 //@ func Add(r, x, y)
+//@   ct
 //@   alias r==x | r==y | x==y | r==x==y
 //@   requires reduced(*x) && reduced(*y)
 //@   modifies *r
@@ -37,6 +43,7 @@ package modm
 //@   ensures cong(sval(*r), sval(old(*x)) + sval(old(*y)), L)
 
 //@ func barrettReduce(r, q1, r1)
+//@   ct
 //@   alias r==r1
 //@   requires limbs56(*q1) && q1[4] < 1<<40 && r1[0] < 1<<56 && r1[1] < 1<<56 && r1[2] < 1<<56 && r1[3] < 1<<56 && r1[4] < 1<<40
 //@   requires q1[0] % (1<<16) == r1[4] >> 24
@@ -51,6 +58,7 @@ package modm
 //@   ensures cong(sval(*r), (sval(old(*q1)) << 248) + old(r1[0]) + old(r1[1])<<56 + old(r1[2])<<112 + old(r1[3])<<168 + (old(r1[4]) % (1<<24))<<224, L)
 
 //@ func Mul(r, x, y)
+//@   ct
 //@   alias r==x | r==y | x==y | r==x==y
 //@   requires canon(*x) && canon(*y)
 //@   modifies *r
@@ -58,6 +66,7 @@ package modm
 //@   ensures cong(sval(*r), sval(old(*x)) * sval(old(*y)), L)
 
 //@ func Expand(out, in)
+//@   ct
 //@   requires len(in) <= 64
 //@   modifies *out
 //@   ensures canon(*out)
@@ -69,12 +78,14 @@ package modm
 //@   ensures len(in) == 32 ==> sval(*out) == le(in[0:32]) % L
 
 //@ func ExpandRaw(out, in)
+//@   ct
 //@   requires len(in) >= 32
 //@   modifies *out
 //@   ensures canon(*out)
 //@   ensures sval(*out) == le(in[0:32])
 
 //@ func Contract(out, in)
+//@   ct
 //@   requires len(out) >= 32 && canon(*in)
 //@   modifies out[0:32]
 //@   ensures le(out[0:32]) == sval(old(*in))
@@ -94,6 +105,7 @@ package modm
 
 //@ config limbs64
 //@ func ContractWindow4(r, in)
+//@   ct
 //@   requires canon(*in) && in[4] < 1<<31
 //@   modifies *r
 //@   loop#3 assert 0 <= r[i] && r[i] + carry <= 16 && 0 <= carry
@@ -153,17 +165,23 @@ package modm
 //@ spec reduced(x) = canon(x) && sval(x) < L
 //@ spec low8(x) = x[0] + x[1]<<30 + x[2]<<60 + x[3]<<90 + x[4]<<120 + x[5]<<150 + x[6]<<180 + x[7]<<210
 
+//@ func ltModM(a, b)
+//@   ct-only
+//@   ct
 //@ func reduce(r)
+//@   ct
 //@   requires limbs56(*r)
 //@   modifies *r
 //@   ensures limbs56(*r)
 //@   ensures sval(*r) == ite(sval(old(*r)) >= L, sval(old(*r)) - L, sval(old(*r)))
 
 //@ func (*Bignum256).Reset(r)
+//@   ct
 //@   modifies *r
 //@   ensures forall(i, 0, 9, r[i] == 0)
 
 //@ func Add(r, x, y)
+//@   ct
 //@   alias r==x | r==y | x==y | r==x==y
 //@   requires reduced(*x) && reduced(*y)
 //@   modifies *r
@@ -171,6 +189,7 @@ package modm
 //@   ensures cong(sval(*r), sval(old(*x)) + sval(old(*y)), L)
 
 //@ func barrettReduce(r, q1, r1)
+//@   ct
 //@   alias r==r1
 //@   requires limbs56(*q1) && q1[8] < 1<<24 && limbs56(*r1) && r1[8] < 1<<24
 //@   requires q1[0] % (1<<16) == r1[8] >> 8
@@ -187,6 +206,7 @@ package modm
 // Note: on this layout q1[8] keeps only 22 of the 24 top bits of x*y, so the
 // function is exact only for x*y < 2^510; every caller passes a reduced x.
 //@ func Mul(r, x, y)
+//@   ct
 //@   alias r==x | r==y | x==y | r==x==y
 //@   requires canon(*x) && canon(*y) && x[8] < 1<<13
 //@   modifies *r
@@ -194,6 +214,7 @@ package modm
 //@   ensures cong(sval(*r), sval(old(*x)) * sval(old(*y)), L)
 
 //@ func Expand(out, in)
+//@   ct
 //@   requires len(in) <= 64
 //@   modifies *out
 //@   ensures canon(*out)
@@ -205,12 +226,14 @@ package modm
 //@   ensures len(in) == 32 ==> sval(*out) == le(in[0:32]) % L
 
 //@ func ExpandRaw(out, in)
+//@   ct
 //@   requires len(in) >= 32
 //@   modifies *out
 //@   ensures canon(*out)
 //@   ensures sval(*out) == le(in[0:32])
 
 //@ func Contract(out, in)
+//@   ct
 //@   requires len(out) >= 32 && canon(*in)
 //@   modifies out[0:32]
 //@   ensures le(out[0:32]) == sval(old(*in))
@@ -229,6 +252,7 @@ package modm
 //@   ensures result == (sval(*a) < 1<<128)
 
 //@ func ContractWindow4(r, in)
+//@   ct
 //@   requires canon(*in) && in[8] < 1<<15
 //@   modifies *r
 //@   loop#4 assert 0 <= r[i] && r[i] + carry <= 16 && 0 <= carry
